@@ -539,6 +539,16 @@ def rule_sketch_structure(ctx):
         ok = any(rg['ops'][0].get('val') == 0 and rg['ops'][1].get('val') == 4 for rg in ranges)
         how = 'literal range 0..4' if ok else None
         if not ok:
+            # the four (table index, counter index) pairs are computed by a helper of the module (its loop is the literal range 0..4) and
+            # handed over as an array of length 4, which the function then walks
+            helpers = [c for c in prog.callees(b.nid) if c.startswith(('common::frequency_sketch::', '<common::frequency_sketch::')) and prog.bodies[c].kind != 'closure'
+                       and prog.bodies[c].locals[0]['ty']['s'].startswith('[') and prog.bodies[c].locals[0]['ty']['s'].endswith('; 4]')]
+            h_ok = any(any(s['st'] == 'assign' and s['rv']['rv'] == 'aggr' and s['rv'].get('kind') == 'adt' and norm(s['rv']['adt']) == 'std::ops::Range' and
+                           s['rv']['ops'][0].get('val') == 0 and s['rv']['ops'][1].get('val') == 4 for _, _, s in prog.bodies[c].stmts()) for c in helpers)
+            walks = any('IntoIter<' in l['ty']['s'] and l['ty']['s'].rstrip('>').endswith(', 4') for l in b.locals)
+            if h_ok and walks:
+                ok, how = True, 'array of 4 slots from %s' % helpers[0].split('::')[-1]
+        if not ok:
             # the depth loop may be driven by an iterator of this module instead of a literal range: decide by unrolling it -- every explored
             # execution of the function goes round its loop exactly 4 times (5 visits of the header), none is abandoned at the unrolling bound
             try:
